@@ -73,6 +73,17 @@ class Opaque(object):
         return 'Opaque(%s,%r)' % (self.kind, self.data)
 
 
+class StreamBlock(object):
+    """content of a byte buffer: bytes [start, start+n) of the harness stream; only the first `fresh` bytes were
+    delivered by the last read (True = all), the rest is stale"""
+    __slots__ = ('start', 'n', 'fresh')
+
+    def __init__(self, start, n, fresh=True):
+        self.start = start
+        self.n = n
+        self.fresh = fresh
+
+
 class SymChoice(object):
     """reference value that is one of several alternatives: [(guard, value)]; guards exclusive & exhaustive"""
     __slots__ = ('alts',)
@@ -169,6 +180,15 @@ def merge_tree(prog, g, a, b):
     """ite(g, a, b) on value trees"""
     if a is b:
         return a
+    if isinstance(a, StreamBlock) or isinstance(b, StreamBlock):
+        if isinstance(a, StreamBlock) and isinstance(b, StreamBlock):
+            fa = a.n if a.fresh is True else a.fresh
+            fb = b.n if b.fresh is True else b.fresh
+            return StreamBlock(int_ite(g, a.start, b.start, 64), int_ite(g, a.n, b.n, 64), int_ite(g, fa, fb, 64))
+        # a buffer that was filled on one path only: unread on the other (no fresh bytes)
+        blk = a if isinstance(a, StreamBlock) else b
+        fr = blk.n if blk.fresh is True else blk.fresh
+        return StreamBlock(blk.start, blk.n, int_ite(g if blk is a else b_not(g), fr, 0, 64))
     if isinstance(a, list):
         if not isinstance(b, list) or len(a) != len(b):
             raise Unsupported('merge of differently shaped objects')
